@@ -140,7 +140,8 @@ impl<'a> Analyzer<'a> {
                 ref child, lo, hi, ..
             } => {
                 let child_info = self.visit(child)?;
-                min_size = child_info.min_size.saturating_mul(lo);
+                // with reversed bounds like `{3,2}` the loop stops after `hi` iterations
+                min_size = child_info.min_size.saturating_mul(min(lo, hi));
                 const_size = child_info.const_size && lo == hi;
                 // The regex crate drops an expression that is repeated zero times together with
                 // its capture groups, which would shift the numbers of all later groups.
